@@ -93,7 +93,6 @@ GET_DESC = lambda t, i, wl: S(0x80, 6, (t << 8) | i, 0, wl)      # noqa: E731
 SET_ADDRESS = lambda a: S(0x00, 5, a)                           # noqa: E731
 SET_CONFIG = lambda c: S(0x00, 9, c)                            # noqa: E731
 GET_STATUS = S(0x80, 0, 0, 0, 2)
-GET_CONFIGURATION = S(0x80, 8, 0, 0, 1)
 
 
 def ack0(seq, nump, **kw):
@@ -201,8 +200,6 @@ def sc_enumeration(rng, quick):
                 + ctl_nodata(S(0x00, 49, 40))                          # SET_ISOCH_DELAY -> ACK
                 + ctl_in(GET_STATUS)
                 + ctl_stall_in(S(0xC0, 7, 0, 0, 4)) + [("quiet",)]))   # vendor IN request -> STALL
-    out.append(("get-configuration-unconfigured", bringup() + ctl_in(GET_CONFIGURATION) + set_address(a) + ctl_in(GET_CONFIGURATION)
-                + ctl_nodata(SET_CONFIG(0)) + ctl_in(GET_CONFIGURATION) + [("quiet",)]))
     out.append(("class-request", bringup() + set_address(b) + ctl_nodata(S(0x21, 9, 0)) + [("quiet",)]))
     out.append(("readdress", bringup() + set_address(a) + ctl_in(GET_DESC(1, 0, 18)) + set_address(b)
                 + ctl_in(GET_DESC(1, 0, 18)) + set_address(0) + ctl_in(GET_DESC(1, 0, 4)) + [("quiet",)]))
@@ -226,12 +223,6 @@ def sc_control_witness(rng, quick):
                 + [("quiet",)]))
     out.append(("setup-after-class-request", bringup() + ctl_nodata(S(0x21, 9, 0)) + set_address(b)
                 + ctl_in(GET_DESC(1, 0, 18)) + [("quiet",)]))
-    # finding get-configuration-always-zero: the configuration register is not wired to the request handler
-    for c in (1, 2) if quick else (1, 2, 0x55, 0xAA, 255):
-        out.append(("get-configuration-after-set-configuration-%d" % c, bringup() + set_address(b) + ctl_nodata(SET_CONFIG(c))
-                    + ctl_in(GET_CONFIGURATION) + ctl_in(GET_STATUS) + [("quiet",)]))
-    out.append(("get-configuration-after-reset", bringup() + set_address(b) + ctl_nodata(SET_CONFIG(1)) + retrain("hot")
-                + ctl_in(GET_CONFIGURATION) + [("quiet",)]))
     return [(n, ("witness", sc)) for n, sc in out]
 
 
@@ -539,7 +530,7 @@ def prepare(items):
 
 
 HANDLED = (0, 5, 6, 8, 9, 48, 49)
-KNOWN_TRIGGERS = ("setup_while_standard_handler_busy", "setup_answered_with_stall", "get_configuration_after_set_configuration",
+KNOWN_TRIGGERS = ("setup_while_standard_handler_busy", "setup_answered_with_stall",
                   "last_beat_withdrawn_while_tx_not_ready")
 
 
@@ -666,10 +657,6 @@ def _cause(trace, k, status, pays):
     k46 = _c46_cause(pre, status)
     if k46:
         return k46
-    setups = [pays[r["p"] - 1]["b"] for r in pre if r["e"] == "dp_rx" and r["setup"] and r["len"] == 8 and not r.get("cor")]
-    if status == "dp_payload" and setups and setups[-1][:2] == [0x80, 8] and any(
-            b[:2] == [0x00, 9] and b[2] != 0 for b in setups):
-        return "get_configuration_after_set_configuration"
     stuck, a_trigger = _control_history(pre, pays)
     last_host = next((r for r in reversed(pre) if r["e"] in ("dp_rx", "tp", "itp")), {})
     if a_trigger and status in ("tp_subtype", "tp_not_owed") and bad.get("e") == "dhp" and last_host.get("e") == "dp_rx" \
@@ -796,7 +783,7 @@ def script_from_behaviour(beh, rng):
     skip_first_up = True
     mapping = {(128, 6, 256): GET_DESC(1, 0, 2), (128, 6, 768): GET_DESC(3, 7, 8), (128, 6, 512): GET_DESC(2, 0, 9),
                (0, 5, 5): SET_ADDRESS(5), (0, 9, 1): SET_CONFIG(1), (0, 3, 1): S(0, 3, 1), (128, 0, 0): GET_STATUS,
-               (64, 1, 0): S(0x40, 1, 0), (192, 1, 0): S(0xC0, 1, 0, 0, 4), (128, 8, 0): GET_CONFIGURATION}
+               (64, 1, 0): S(0x40, 1, 0), (192, 1, 0): S(0xC0, 1, 0, 0, 4)}
     for _a, stv in beh[1:]:
         e = stv["ev"]
         k = e.get("e")
@@ -942,7 +929,7 @@ def extra_C45(rep):
 
 def extra_C48(rep):
     _run(rep, "C48", [("descriptors", sc_descriptors), ("rx_packets", sc_rx_packets),
-                      ("enumeration", lambda rng, q: sc_enumeration(rng, q)[:3]), ("control_witness", sc_control_witness)],
+                      ("enumeration", lambda rng, q: sc_enumeration(rng, q)[:2]), ("control_witness", sc_control_witness)],
          ["rx"], sim_from="rx")
 
 
